@@ -21,10 +21,10 @@ func (e *otlpLogDec) Decode() error {
 
 	for _, resLog := range logs.ResourceLogs {
 		resourceAttrs := map[string]string{}
-		e.initAttributesMap(resLog.Resource.Attributes, "", &resourceAttrs)
+		e.initAttributesMap(resLog.GetResource().GetAttributes(), "", &resourceAttrs)
 		for _, scopeLog := range resLog.ScopeLogs {
 			scopeAttrs := map[string]string{}
-			e.initAttributesMap(scopeLog.Scope.Attributes, "", &scopeAttrs)
+			e.initAttributesMap(scopeLog.GetScope().GetAttributes(), "", &scopeAttrs)
 			for _, logRecord := range scopeLog.LogRecords {
 				var labels [][]string
 				// Merge resource and scope attributes
